@@ -10,6 +10,7 @@ negates the field (both from the Biot–Savart integral representation, Lemmas/S
    oracle checks them on the real code. -/
 -/
 import MagpyVerif.Lemmas.KernReal
+import MagpyVerif.Lemmas.KernelLiterals
 import MagpyVerif.Lemmas.KernAlgebra
 import MagpyVerif.Lemmas.SegmentBS
 namespace MagpyVerif.C13
